@@ -57,9 +57,11 @@ class Drillhole(Points):
         self._collar: np.ndarray | None = None
         self._cost: float | None = 0.0
         self._depths: FloatData | None = None
-        self._end_of_hole: float | None = None
         self._planning: str = "Default"
         self._surveys: np.ndarray | None = None
+        # (after the surveys: attributes are handed to a copy in this order, and
+        # assigning surveys resets the end of hole to the last station)
+        self._end_of_hole: float | None = None
         self._trace: np.ndarray | None = None
         self._trace_depth: np.ndarray | None = None
         self._locations = None
